@@ -6,6 +6,7 @@ CONSTANTS
   MaxEvents = 6
   Defects = {}
   LateMonitor = FALSE
+  CleanupSvc = FALSE
 INVARIANT TypeOK
 PROPERTY PropOneLink
 PROPERTY PropSync
